@@ -310,3 +310,14 @@ Definition allowed_tags (cat : list (str * str)) : list str :=
 Definition site_tags_allowed (cat : list (str * str)) (s : site) : bool :=
   mem_str (s_file s) exempt_files ||
   forallb (fun t => mem_str t (allowed_tags cat)) (site_tags cat s).
+
+(* the allow list names call sites, not whole functions: each listed (file, function) holds at most
+   one untagged reporter.warning call *)
+Definition untagged_in (sites : list site) (p : str * str) : nat :=
+  List.length (filter (fun s => match s_kind s with
+                           | KReporterWarning => str_eqb (s_file s) (fst p) && str_eqb (s_func s) (snd p)
+                           | _ => false
+                           end) sites).
+
+Definition untagged_sites_bounded (sites : list site) : bool :=
+  forallb (fun p => Nat.leb (untagged_in sites p) 1) docutils_level_sites.
